@@ -19,7 +19,7 @@ import sys
 import tempfile
 import time
 
-VERIF = "/verif"
+VERIF = os.path.dirname(os.path.dirname(os.path.abspath(__file__)))  # /verif, or a snapshot of it
 REPO = os.environ.get("VERIF_REPO", "/repo")
 COQ = os.path.join(VERIF, "coq")
 THEORIES = os.path.join(COQ, "theories")
